@@ -95,3 +95,14 @@ def _norm_sets(txt: str) -> str:
             run.append(ln)
     flush()
     return '\n'.join(out)
+
+
+def order_free(fp):
+    """Hash-seed independent view of a fingerprint (for run digests only, never for the oracle):
+    every list is replaced by the sorted list of its normalised children, because a list that pane
+    derived from a set carries the set's iteration order."""
+    if isinstance(fp, list):
+        kids = [order_free(x) for x in fp]
+        import json
+        return sorted(kids, key=lambda k: json.dumps(k, sort_keys=True, default=str))
+    return fp
